@@ -20,6 +20,8 @@
 //	op ID sqlq TABLE COLS K MODE         (sql goroutines) read K rows (-1: all), MODE close|cancel|drain
 //	op ID sqlqc TABLE COLS               Query and Close at once
 //	op ID psq TABLE COLS K               the pool's shared prepared statement for (TABLE, COLS)
+//	op ID txnest T1 C1 T2 C2 K          one sql.Tx: for each of the first K rows of T1 a complete query of T2 while T1's result set is open;
+//	                                     compared inside the op with the same loops through the native API
 //	run sequential|concurrent SEED
 package main
 
@@ -235,6 +237,77 @@ func sqlOp(g *gor, w []string) string {
 			err = cerr
 		}
 		return d.String(err)
+	case "txnest":
+		k, _ := strconv.Atoi(w[5])
+		tx, err := pool.Begin()
+		if err != nil {
+			return d.String(err)
+		}
+		defer tx.Rollback()
+		rows, err := tx.Query(q(w[1], w[2]))
+		if err != nil {
+			return "NESTED-MISMATCH outer query: " + err.Error()
+		}
+		n := 0
+		for rows.Next() {
+			s, err := scanRow(rows)
+			if err != nil {
+				rows.Close()
+				return "NESTED-MISMATCH outer scan: " + err.Error()
+			}
+			d.add(s)
+			if n < k {
+				rows2, err := tx.Query(q(w[3], w[4]))
+				if err != nil {
+					rows.Close()
+					return "NESTED-MISMATCH a query issued while another result set of the same transaction is open fails: " + err.Error()
+				}
+				for rows2.Next() {
+					s2, err := scanRow(rows2)
+					if err != nil {
+						rows2.Close()
+						rows.Close()
+						return "NESTED-MISMATCH inner scan: " + err.Error()
+					}
+					d.add(s2)
+				}
+				if err := rows2.Err(); err != nil {
+					rows2.Close()
+					rows.Close()
+					return "NESTED-MISMATCH inner rows.Err: " + err.Error()
+				}
+				rows2.Close()
+			}
+			n++
+		}
+		if err := rows.Err(); err != nil {
+			rows.Close()
+			return "NESTED-MISMATCH outer rows.Err: " + err.Error()
+		}
+		rows.Close()
+		// the same loops through the native API on a handle of its own
+		ndb, err := sqlittle.Open(files[pdefs[g.pool][0]])
+		if err != nil {
+			return d.String(err)
+		}
+		defer ndb.Close()
+		var nd digest
+		var outer []string
+		if err := ndb.Select(w[1], func(r sqlittle.Row) { outer = append(outer, showRow(r)) }, expandCols(ndb, w[1], cols(w[2]))...); err != nil {
+			return d.String(err)
+		}
+		for i, s := range outer {
+			nd.add(s)
+			if i < k {
+				if err := ndb.Select(w[3], func(r sqlittle.Row) { nd.add(showRow(r)) }, expandCols(ndb, w[3], cols(w[4]))...); err != nil {
+					return d.String(err)
+				}
+			}
+		}
+		if nd.String(nil) != d.String(nil) {
+			return "NESTED-MISMATCH nested result sets in one transaction: " + d.String(nil) + " native " + nd.String(nil)
+		}
+		return d.String(nil)
 	}
 	return "bad-op"
 }
